@@ -17,7 +17,8 @@ nontrivial = c01.nontrivial
 def streams(tier, seed):
     rng = lib.Rng(f"C02-{seed}")
     n = 160 if tier == "quick" else 3000
-    cases = lib.load_corpus(PROP, "hier-compile") + c01.gen_cases(rng, n, 3 if tier == "quick" else 4)
+    # wiring-heavy: up to 4 children per node, always listed in a random (mostly non-topological) order
+    cases = lib.load_corpus(PROP, "hier-compile") + c01.gen_cases(rng, n, 3 if tier == "quick" else 4, max_children=4, p_shuffle=1.0, p_rep=0.1, p_through=0.25)
     return [c01.mk_stream(cases, "check_wires")]
 
 
